@@ -1,6 +1,6 @@
 (* AsmSem.v — a small self-contained interpreter for the classical NetQASM
    instructions (set add sub addm subm load store lea undef array jmp bez bnz
-   beq bne blt bge ret_reg ret_arr) over registers, arrays and shared memory.
+   beq bne blt bge ret_reg ret_arr wait_all) over registers, arrays and shared memory.
    ONE interpreter runs both kinds of program:
      - a source program (proto-commands): labels are positions, a literal in a
        value position denotes its value, instr(a,b) x = instr a b x;
@@ -117,18 +117,29 @@ Definition arr_init (m : amem) (a len : Z) : amem :=
             end in
   mkMem (zset (m_arr m) a (repeat None (Z.to_nat len))) (m_shreg m) sh.
 
+(* Python list[s:e] (step 1): both bounds are clamped, negative ones count from the end *)
+Definition clamp_idx (n i : Z) : Z := if i <? 0 then Z.max (n + i) 0 else Z.min i n.
+
+Definition py_slice {A} (l : list A) (s e : Z) : list A :=
+  let n := Z.of_nat (List.length l) in
+  let a := clamp_idx n s in
+  let b := clamp_idx n e in
+  firstn (Z.to_nat (b - a)) (skipn (Z.to_nat a) l).
+
+Definition is_some {A} (o : option A) : bool := match o with Some _ => true | None => false end.
+
 (* ---------- one instruction ---------- *)
 
 Inductive aopc :=
 | Xset | Xadd | Xsub | Xaddm | Xsubm | Xload | Xstore | Xlea | Xundef | Xarray
-| Xjmp | Xbez | Xbnz | Xbeq | Xbne | Xblt | Xbge | Xretreg | Xretarr | Xother.
+| Xjmp | Xbez | Xbnz | Xbeq | Xbne | Xblt | Xbge | Xretreg | Xretarr | Xwaitall | Xother.
 
 Local Open Scope string_scope.
 Definition opc_table : list (string * aopc) :=
   [("set", Xset); ("add", Xadd); ("sub", Xsub); ("addm", Xaddm); ("subm", Xsubm);
    ("load", Xload); ("store", Xstore); ("lea", Xlea); ("undef", Xundef); ("array", Xarray);
    ("jmp", Xjmp); ("bez", Xbez); ("bnz", Xbnz); ("beq", Xbeq); ("bne", Xbne);
-   ("blt", Xblt); ("bge", Xbge); ("ret_reg", Xretreg); ("ret_arr", Xretarr)].
+   ("blt", Xblt); ("bge", Xbge); ("ret_reg", Xretreg); ("ret_arr", Xretarr); ("wait_all", Xwaitall)].
 Local Close Scope string_scope.
 
 Fixpoint opc_find (t : list (string * aopc)) (mn : string) : aopc :=
@@ -240,6 +251,17 @@ Definition exec (o : aopc) (ops : list aopnd) (st : astate) : eres :=
                     (mkMem (m_arr (s_mem st)) (m_shreg (s_mem st)) (zset (m_sharr (s_mem st)) a ShAlias)))
       | None => EFault
       end
+  | Xwaitall, [ASlice a s e] =>
+      (* passes when every entry of the slice is defined; otherwise the executor waits
+         for the network stack: outside this model *)
+      match rdv st s, rdv st e with
+      | Some x, Some y =>
+          match zlookup (m_arr (s_mem st)) a with
+          | Some l => if forallb is_some (py_slice l x y) then ENext st else EStuck
+          | None => EFault
+          end
+      | _, _ => EFault
+      end
   | _, _ => EStuck
   end.
 
@@ -305,6 +327,7 @@ Definition is_litop (o : aopnd) : bool := match o with AV (VLit _) => true | _ =
 Definition is_label (o : aopnd) : bool := match o with ALabel _ => true | _ => false end.
 Definition is_addr (o : aopnd) : bool := match o with AAddr _ => true | _ => false end.
 Definition is_entry (o : aopnd) : bool := match o with AEntry _ _ => true | _ => false end.
+Definition is_slice (o : aopnd) : bool := match o with ASlice _ _ _ => true | _ => false end.
 
 (* destination positions hold a register, branch targets a label, set's second
    operand a literal; every other value position a register or a literal *)
@@ -323,6 +346,7 @@ Definition shape_ok (o : aopc) (ops : list aopnd) : bool :=
   | (Xbeq | Xbne | Xblt | Xbge), [a; b; t] => is_val a && is_val b && is_label t
   | Xretreg, [r] => is_regop r
   | Xretarr, [a] => is_addr a
+  | Xwaitall, [e] => is_slice e
   | Xother, _ => true
   | _, _ => false
   end.
@@ -333,7 +357,7 @@ Definition exempt_expected : list (string * list nat) :=
   [("set", [1]); ("add", []); ("sub", []); ("addm", []); ("subm", []); ("load", []);
    ("store", []); ("lea", []); ("undef", []); ("array", []); ("jmp", [0]); ("bez", [1]);
    ("bnz", [1]); ("beq", [2]); ("bne", [2]); ("blt", [2]); ("bge", [2]); ("ret_reg", []);
-   ("ret_arr", [])]%string%nat.
+   ("ret_arr", []); ("wait_all", [])]%string%nat.
 
 Definition exempt_ok (ex : list (string * nat)) : bool :=
   forallb (fun p => forallb (fun j => Bool.eqb (is_exempt ex (fst p) j) (existsb (Nat.eqb j) (snd p)))
